@@ -37,12 +37,6 @@ deriving Repr, DecidableEq, Inhabited
 def posOfNat (l : List Nat) : Pos := l.map Int.ofNat
 def natVec (l : List Nat) : List F := l.map (fun n => F.ofInt (Int.ofNat n))
 
-/-- `not_in_constraint(p)` read from the tape -/
-def askFeas (p : Pos) : Tape → Except Err (Bool × Tape)
-  | .feas q ok :: rest => if q ≠ p then .error (protocol "constraint-evaluated-elsewhere") else .ok (ok, rest)
-  | [] => .error .needMore
-  | _ => .error (protocol "constraint")
-
 /-- the `while True` of `DiagonalGridSearchOptimizer.iterate` once the direction is known -/
 def diagLoop (cfg : GridCfg) (d t : Nat) : Nat → Bool → Nat → Tape → Except Err (Pos × Nat × Tape)
   | 0, _, _, _ => .error .needMore
